@@ -58,17 +58,15 @@ Theorem C09_many_masters_keep_mode : forall cfg env m tr m1,
 Proof. exact leave_maintenance_many_masters. Qed.
 Print Assumptions C09_many_masters_keep_mode.
 
-(* a process that runs stateManager while full maintenance is acknowledged (e.g. it was restarted and became the
-   manager) only READS - registry, servers, health records, master key, active list, maintenance record - and
-   goes to the paused state; it never reaches the repair tail.  Hypothesis: the master record is there (read
-   as a host, or the read failed).  The first version of this theorem needed "the read succeeded": with a FAILED
-   read getCurrentMaster re-learned and overwrote the master before the maintenance record was looked at - that
-   witness reproduced on the real code (C09-K3) and was repaired in /repo (b339185); a MISSING or unparsable
-   record is still re-learned, also during maintenance, which is why the hypothesis remains. *)
+(* A process that runs stateManager while full maintenance is acknowledged (it was restarted, or took the lock over)
+   only READS - registry, servers, health records, maintenance record - and goes to the paused state; it never
+   reaches the master lookup, the request handling or the repair tail.  No hypothesis about the master record is
+   left: the first versions of this theorem needed "the master key was read successfully" and then "is present",
+   because getCurrentMaster ran BEFORE the maintenance record was read and re-learns and WRITES a master it cannot
+   read or find.  Both witnesses reproduced on the real code (C09-K3: failed read, C09-K4: missing key) and were
+   repaired in /repo (b339185, 38205c1: the maintenance record is read first). *)
 Theorem C09_manager_iteration_is_frozen_when_acknowledged : forall cfg env m tr o,
   runs (manager_gates cfg env m) tr o ->
-  (forall e, In e tr -> ev_call e = DcsGet PMaster ->
-     (exists h, ev_resp e = RVal (VHost h)) \/ (exists er, ev_resp e = RErr er /\ er <> ENotFound /\ er <> EMalformed)) ->
   (forall e, In e tr -> ev_call e = DcsGet PMaintenance ->
      exists mt, ev_resp e = RVal (VMaint mt) /\ mt_light mt = false /\ mt_paused mt = true) ->
   only_reads tr /\ (forall c m', o <> Done (GTail c, m')) /\
